@@ -60,6 +60,10 @@ def cases(rng, tier):
         nidle = rng.choice([0, 0, 0, 1, 2]) if nq > 1 else 0
         idle = sorted(rng.sample(range(nq), nidle))
         instrs = gen.rand_instrs(rng, nq, rng.randint(0, 10), idle=idle)
+        for ins in instrs:
+            # user barriers may carry a label (it is dropped when the pieces of a split barrier are re-joined)
+            if ins["name"] == "barrier" and rng.random() < 0.35:
+                ins["label"] = rng.choice(["layer", "b1", "sync"])
         kind = rng.choice(["separate", "separate", "partition_problem", "partition_problem", "partition_circuit_qubits"])
         big3 = False
         live_q = [q for q in range(nq) if q not in idle]
